@@ -627,3 +627,132 @@ func c15TPuts(run *PropRun) {
 		run.Assumed[k] = true
 	}
 }
+
+// c09Emit (C09, "no stray parameter-language residue"): the REAL tScreen.TPuts - the one door through which the screen
+// emits capability strings - is evaluated in both of its modes (collecting in the draw buffer; writing to the tty) on
+// every database string that carries a padding specification and on the padding grammar corpus; what reaches the
+// output must be the string with every well-formed `$<..>` removed (the C15 reference).  The tty is stood in for by a
+// byte collector (only Write is reached).
+func c09Emit(run *PropRun) {
+	e := run.Eng
+	db := LoadTermDB(e, true)
+	c := db.Ev.C
+	fn := e.FindFunc(modPath + ".(*tScreen).TPuts")
+	if fn == nil {
+		panic(VerErr{"UNDECIDED: (*tScreen).TPuts not found"})
+	}
+	type job struct {
+		name, s string
+		bounded bool
+	}
+	var jobs []job
+	seen := map[string]bool{}
+	for _, te := range db.Entries {
+		for i := 0; i < db.TI.NumFields(); i++ {
+			f := db.TI.Field(i)
+			if !isString(f.Type()) {
+				continue
+			}
+			s := db.str(te, f.Name())
+			if strings.Contains(s, "$<") && !seen[s] {
+				seen[s] = true
+				jobs = append(jobs, job{fmt.Sprintf("screen-tputs[%s.%s]", te.Name, f.Name()), s, false})
+			}
+		}
+	}
+	nDB := len(jobs)
+	for i, s := range tputsCorpus {
+		jobs = append(jobs, job{fmt.Sprintf("screen-tputs-grammar[%d:%s]", i, s), s, true})
+	}
+	bufT := e.PkgBy["bytes"].Types.Scope().Lookup("Buffer").Type()
+	tiT := e.SPkgs[modPath+"/terminfo"].Type("Terminfo").Type()
+	tsT := e.SPkgs[modPath].Type("tScreen").Type()
+	stt := under(tsT).(*types.Struct)
+	for _, j := range jobs {
+		for _, buffering := range []bool{true, false} {
+			st := db.St.clone()
+			st.Frames = nil
+			st.PathID = 0
+			st.CallLog = nil
+			to := c.newObject("ti", tiT)
+			st.Mem[to] = c.zeroValue(st, tiT)
+			bo := c.newObject("ttyout", bufT)
+			st.Mem[bo] = c.zeroValue(st, bufT)
+			so := c.newObject("screen", tsT)
+			sv := c.zeroValue(st, tsT).(*StructV)
+			nf := &StructV{Typ: sv.Typ, F: append([]Value(nil), sv.F...)}
+			bufIdx := -1
+			for i := 0; i < stt.NumFields(); i++ {
+				switch stt.Field(i).Name() {
+				case "ti":
+					nf.F[i] = PtrV{Obj: to}
+				case "buffering":
+					nf.F[i] = BoolT(buffering)
+				case "buf":
+					bufIdx = i
+				case "tty":
+					nf.F[i] = IfaceV{Dyn: types.NewPointer(bufT), Val: PtrV{Obj: bo}, Iface: stt.Field(i).Type()}
+				}
+			}
+			st.Mem[so] = nf
+			paths, err := db.Ev.Call(st, fn, []Value{PtrV{Obj: so}, conc(j.s)})
+			name := j.name + map[bool]string{true: "/buffered", false: "/direct"}[buffering]
+			want, _ := refStrip(j.s)
+			if err != nil || len(paths) != 1 {
+				run.Errors = append(run.Errors, fmt.Sprintf("%s: %v (%d paths)", name, err, len(paths)))
+				continue
+			}
+			fs := paths[0].St
+			read := func(key string) string {
+				r, ok := fs.Ghost["rope:"+key].(StrV)
+				if !ok {
+					return ""
+				}
+				out := ""
+				for _, p := range flattenRope(r) {
+					if p.Conc == nil {
+						return "<symbolic>"
+					}
+					out += *p.Conc
+				}
+				return out
+			}
+			inBuf, onTty := read(pathKey(so, []int{bufIdx})), read(pathKey(bo, nil))
+			ok := inBuf == want && onTty == ""
+			if !buffering {
+				ok = onTty == want && inBuf == ""
+			}
+			kind := "table"
+			if j.bounded {
+				kind = "table-bounded"
+			}
+			g := run.AddObligation(name, kind, BoolT(ok), fmt.Sprintf("tScreen.TPuts(%q) with buffering=%v emits %q (every well-formed padding specification removed, nothing else changed) to %s and nothing to the other [real code: draw buffer %q, tty %q]",
+				j.s, buffering, want, map[bool]string{true: "the draw buffer", false: "the tty"}[buffering], inBuf, onTty))
+			g.ReplayGo = replayTest("tcell", []string{"bytes", modPath + "/terminfo"}, fmt.Sprintf(`
+	var out bytes.Buffer
+	scr := &tScreen{ti: &terminfo.Terminfo{}, tty: &c09Tty{out: &out}, buffering: %v}
+	scr.TPuts(%q)
+	got := out.String()
+	if scr.buffering { got = scr.buf.String() }
+	if got != %q { fail("tScreen.TPuts(%%q) with buffering=%%v emitted %%q, want %%q", %q, scr.buffering, got, %q); return }`, buffering, j.s, want, j.s, want)) + `
+type c09Tty struct{ out *bytes.Buffer }
+
+func (t *c09Tty) Read(p []byte) (int, error)      { return 0, nil }
+func (t *c09Tty) Write(p []byte) (int, error)     { return t.out.Write(p) }
+func (t *c09Tty) Close() error                    { return nil }
+func (t *c09Tty) Start() error                    { return nil }
+func (t *c09Tty) Stop() error                     { return nil }
+func (t *c09Tty) Drain() error                    { return nil }
+func (t *c09Tty) NotifyResize(cb func())          {}
+func (t *c09Tty) WindowSize() (WindowSize, error) { return WindowSize{Width: 80, Height: 24}, nil }
+`
+		}
+	}
+	run.Groups = append(run.Groups, groupObligations(c.Obs)...)
+	c.Obs = nil
+	run.Extra["screen_tputs_strings_from_database"] = nDB
+	run.Extra["screen_tputs_grammar_corpus_bounded"] = len(tputsCorpus)
+	for k := range c.Assumed {
+		run.Assumed[k] = true
+	}
+}
